@@ -756,4 +756,37 @@ instance (T : Tabs) : Decidable (DWF T) := inferInstanceAs (Decidable (dwfTabs T
 
 end dict
 
+/-! ### the same python class in another namespace context -/
+
+def ArrSpec.sameShape (a b : ArrSpec) : Bool :=
+  a.minLen == b.minLen && a.maxLen == b.maxLen && a.idxPos == b.idxPos && a.idxLabels == b.idxLabels && a.idxLimit == b.idxLimit
+
+/-- two field kinds that differ in tags / attribute names only (`v` = the same for nested classes) -/
+def Kind.variant (v : ClassId → ClassId → Bool) : Kind → Kind → Bool
+  | .prim p, .prim q => p == q
+  | .attr p, .attr q => p == q
+  | .text p, .text q => p == q
+  | .primList p, .primList q => p == q
+  | .child c, .child d => v c d
+  | .list c, .list d => v c d
+  | .array c a, .array d b => v c d && a.sameShape b
+  | .floatArr f, .floatArr g => f.prim == g.prim
+  | .params c _, .params d _ => v c d
+  | .count .., .count .. => true
+  | .const .., .const .. => true
+  | .which .., .which .. => true
+  | _, _ => false
+
+/-- class `d` is class `c` seen from another namespace context: the same fields of the same kinds in the same order, nested
+    classes likewise; only the qualified tags (and attribute / wrapper names) differ.  What a value may hold does not depend on
+    tags, so a value taken over by a parent of another context is still a value of the class (`wfValN_variant`). -/
+def variantN : Nat → Tabs → ClassId → ClassId → Bool
+  | 0, _, _, _ => true
+  | n + 1, T, c, d =>
+    match T[c]?, T[d]? with
+    | some (.rows rs), some (.rows rs') => all2 (fun r r' => Kind.variant (variantN n T) r.kind r'.kind) rs rs'
+    | some .custom, some .custom => true
+    | some (.poly s), some (.poly s') => s.two == s'.two && s.prim == s'.prim && s.dimOff == s'.dimOff
+    | _, _ => false
+
 end Sarpy.Spec.XmlFmt
